@@ -67,7 +67,10 @@ type schEvent struct {
 	key int
 	aux []byte
 	msg []byte
-	sig []byte
+	sig []byte // the slice Sign returned (not a copy)
+
+	snap     []byte // what it held when it was returned
+	reported bool
 }
 
 // World is the state of one run.
